@@ -145,6 +145,8 @@ class Run:
             meta[v[1]] = 65536 + 10
         user, desc, ext = d.meta(meta)
         t = TransactionMetaData(user, desc, ext)
+        self.vmeta = (user, desc, d.ext_bytes(ext))
+        self.vrecs = []
         plan = None
         if kind == 'io':
             shape = v[2]
@@ -180,6 +182,9 @@ class Run:
                     if kind == 'quota' and v[1] == i:
                         st._quota = 0
                     st.store(oid, serial, data, '', t)
+                    from ..model import DATA, MRec
+                    self.vrecs.append(MRec(oid, DATA, data, None, strong,
+                                           cls))
                     nstore += 1
                     if kind == 'abort' and v[1] == 'store%d' % i:
                         raise _Abort()
@@ -203,6 +208,7 @@ class Run:
             # other threads keep reading while the transaction is in
             # flight: pooled read handles may read ahead into its bytes
             self.read_some()
+            self.vtid = getattr(st, '_tid', None)
             if kind in ('abort', 'dry') or (kind == 'io'
                                             and not plan.fired):
                 # abort after vote (also the fate of a fault plan that
@@ -239,10 +245,11 @@ class Run:
             fs.disarm()
         if kind == 'quota':
             st._quota = None
+        self.phase = phase
         if kind in ('conflict', 'quota', 'longmeta') and raised is None \
                 and not getattr(self, 'skipped', False):
             self.flag('failure-not-reported', 'the %s did not raise' % kind)
-        if not finished:
+        if not finished and not (kind == 'finish-io' and phase == 'finish'):
             if raised is not None:
                 self.read_some()
             # the client's reaction to any failure: tpc_abort
@@ -291,8 +298,12 @@ class Run:
         v = self.variant
         fs = self.sim.fs
         m = d.model
-        if self.finished and v[0] == 'finish-io':
+        if v[0] == 'finish-io' and (self.finished or self.phase == 'finish'):
+            if self.raised is None and self.finished:
+                return      # the fault did not fire: an ordinary commit
             return self.after_finish_fault()
+        if v[0] == 'dryfinish':
+            return
         if self.finished:
             # no fault fired and the variant did not abort: ordinary commit
             self.flag('harness', 'victim finished in variant %r' % (v,))
@@ -358,10 +369,77 @@ class Run:
             d.close()
 
     def after_finish_fault(self):
-        """A fault inside tpc_finish: C01's rule."""
+        """A fault inside tpc_finish: C01's rule -- after a reopen the
+        transaction is present in full or absent in full."""
+        from ..model import Log, MTxn
         d = self.d
-        if self.raised is None and self.fired:
+        m0 = Log(d.model.txns)
+        m1 = None
+        if self.vtid is not None and self.case['victim']['op'] == 'txn':
+            m1 = Log(d.model.txns + [MTxn(self.vtid, ' ', self.vmeta[0],
+                                          self.vmeta[1], self.vmeta[2],
+                                          list(self.vrecs))])
+        # the live storage object either refuses everything (it closed
+        # itself) or still answers like one of the two states
+        live0 = sweep(d.st, m0, d.caps, tag='live after finish fault: ',
+                      full=False)
+        if live0 and not all("'err'" in b[1] for b in live0):
+            live1 = sweep(d.st, m1, d.caps, tag='live after finish fault: ',
+                          full=False) if m1 is not None else live0
+            if live1 and not all("'err'" in b[1] for b in live1):
+                for name, msg in live1[:2]:
+                    self.flag('finish-fault-live-state:' + name, msg)
+        if not live0:
+            # the live storage carries on as if the transaction were
+            # absent: then the next transaction must commit cleanly on it
+            # and survive a reopen
+            try:
+                out = d.execute(self.case['follow'])
+                d.check_file('after follow-up on the storage that survived '
+                             'a finish fault: ')
+                d.execute({'op': 'reopen'})
+            except Violation:
+                out = 'violation'
+            except Exception:           # noqa: B902
+                # it did close itself (partly): judged after a reopen below
+                out = 'raised'
+            if out != 'raised':
+                for o, x in d.viol:
+                    self.flag('finish-fault-next:' + o, x)
+                del d.viol[:]
+                self.outcome = 'finish-fault:live-absent'
+                try:
+                    d.close()
+                except Exception:       # noqa: B902
+                    pass
+                return
+            del d.viol[:]
+        try:
+            d.close()
+        except Exception:       # noqa: B902 -- it may have closed itself
             pass
+        self.sim.fs.locks.clear()
+        try:
+            d.open()
+        except Exception as e:  # noqa: B902
+            self.flag('finish-fault-reopen-raises', 'reopen after a fault '
+                      'inside tpc_finish raised %s: %s'
+                      % (type(e).__name__, str(e)[:80]))
+            return
+        bad0 = sweep(d.st, m0, d.caps, tag='reopened (absent): ')
+        if not bad0:
+            self.outcome = 'finish-fault:absent'
+            d.close()
+            return
+        bad1 = sweep(d.st, m1, d.caps, tag='reopened (present): ') \
+            if m1 is not None else bad0
+        if not bad1:
+            self.outcome = 'finish-fault:present'
+            d.close()
+            return
+        for name, msg in (bad1 if len(bad1) <= len(bad0) else bad0)[:2]:
+            self.flag('finish-fault-mixed-state:' + name, msg)
+        d.close()
 
 
 class _Abort(Exception):
@@ -383,6 +461,10 @@ def variants_for(case, raw_ops, finish_ops, nstore, tier):
         for i in range(raw_ops):
             for s in SHAPES:
                 out.append(('io', i, s))
+        if vop['op'] == 'txn':
+            for j in range(finish_ops):
+                for s in ('enospc', 'eio', 'persist'):
+                    out.append(('finish-io', j, s))
     return out
 
 
@@ -394,6 +476,9 @@ def run(case):
     evals = 0
     dry = Run(case, ('dry',)).go()
     viol.extend(dry.viol)
+    if not viol and case['kind'] == 'file':
+        df = Run(case, ('dryfinish',)).go()
+        dry.finish_ops = df.finish_ops
     sim_time = dry.sim.clock.elapsed()
     outcomes = []
     if not viol:
